@@ -69,6 +69,28 @@ Proof.
   destruct (forallb (fun c => (c <? 256)%N) p); reflexivity.
 Qed.
 
+(* ------------------------------------------------------------ add_route under a route prefix *)
+Theorem gen_nest_prefix_is_model old new : gen_nest_prefix old new = nest_prefix_model old new.
+Proof. unfold gen_nest_prefix, nest_prefix_model. destruct old, new; reflexivity. Qed.
+
+Theorem gen_prefix_pattern_is_model prefix inherit pattern :
+  gen_prefix_pattern prefix inherit pattern = prefix_pattern_model prefix inherit pattern.
+Proof.
+  unfold gen_prefix_pattern, prefix_pattern_model. destruct prefix as [pf|]; [|reflexivity].
+  destruct (l_is_nil pf); [reflexivity|].
+  destruct (text_eqb pattern []), inherit; cbn [andb]; rewrite <- ?app_assoc; reflexivity.
+Qed.
+
+(* what the property needs of it: under a prefix the declared pattern keeps its own end (in
+   particular a trailing slash); only its leading slashes and the prefix's trailing ones go *)
+Theorem prefix_keeps_pattern_end pf pattern inherit :
+  l_is_nil pf = false -> pattern <> [] ->
+  gen_prefix_pattern (Some pf) inherit pattern = rstrip_char 47%N pf ++ 47%N :: lstrip_char 47%N pattern.
+Proof.
+  intros Hp Hn. rewrite gen_prefix_pattern_is_model. unfold prefix_pattern_model. rewrite Hp.
+  destruct pattern; [congruence|reflexivity].
+Qed.
+
 (* ------------------------------------------------------------ the matcher closure of _compile_route *)
 Theorem gen_matcher_is_model groups rem path : gen_matcher groups rem path = matcher_model groups rem path.
 Proof.
